@@ -273,6 +273,16 @@ func traverseMap(context Context, matchingNode *CandidateNode, keyNode *Candidat
 }
 
 func doTraverseMap(newMatches *orderedmap.OrderedMap, node *CandidateNode, wantedKey string, prefs traversePreferences, splat bool) error {
+	return doTraverseMergedMap(newMatches, node, wantedKey, prefs, splat, nil)
+}
+
+// mergedFrom: the maps whose merge keys led here (a map that merges itself would never end)
+func doTraverseMergedMap(newMatches *orderedmap.OrderedMap, node *CandidateNode, wantedKey string, prefs traversePreferences, splat bool, mergedFrom []*CandidateNode) error {
+	for _, seen := range mergedFrom {
+		if seen == node {
+			return fmt.Errorf("merge anchor &%v refers to itself", node.Anchor)
+		}
+	}
 	// value.Content is a concatenated array of key, value,
 	// so keys are in the even indices, values in odd.
 	// merge aliases are defined first, but we only want to traverse them
@@ -286,7 +296,7 @@ func doTraverseMap(newMatches *orderedmap.OrderedMap, node *CandidateNode, wante
 		//skip the 'merge' tag, find a direct match first
 		if key.Tag == "!!merge" && !prefs.DontFollowAlias && wantedKey != "<<" {
 			log.Debug("Merge anchor")
-			err := traverseMergeAnchor(newMatches, value, wantedKey, prefs, splat)
+			err := traverseMergeAnchor(newMatches, value, wantedKey, prefs, splat, append(mergedFrom, node))
 			if err != nil {
 				return err
 			}
@@ -306,16 +316,16 @@ func doTraverseMap(newMatches *orderedmap.OrderedMap, node *CandidateNode, wante
 	return nil
 }
 
-func traverseMergeAnchor(newMatches *orderedmap.OrderedMap, value *CandidateNode, wantedKey string, prefs traversePreferences, splat bool) error {
+func traverseMergeAnchor(newMatches *orderedmap.OrderedMap, value *CandidateNode, wantedKey string, prefs traversePreferences, splat bool, mergedFrom []*CandidateNode) error {
 	switch value.Kind {
 	case AliasNode:
 		if value.Alias.Kind != MappingNode {
 			return fmt.Errorf("can only use merge anchors with maps (!!map), but got %v", value.Alias.Tag)
 		}
-		return doTraverseMap(newMatches, value.Alias, wantedKey, prefs, splat)
+		return doTraverseMergedMap(newMatches, value.Alias, wantedKey, prefs, splat, mergedFrom)
 	case SequenceNode:
 		for _, childValue := range value.Content {
-			err := traverseMergeAnchor(newMatches, childValue, wantedKey, prefs, splat)
+			err := traverseMergeAnchor(newMatches, childValue, wantedKey, prefs, splat, mergedFrom)
 			if err != nil {
 				return err
 			}
